@@ -155,6 +155,7 @@ def parse_aux(path, incdir):
         f = os.path.realpath(m.group(1))
         if not f.startswith(pre):
             continue
+        kr = re.search(r'/\* \(([^)]*)\)', m.group(5))
         decl = re.sub(r'/\*.*?\*/', '', m.group(5)).strip()
         storage = 'static' if re.match(r'static\b', decl) else 'extern'
         n = FN_NAME.search(decl)
@@ -162,9 +163,59 @@ def parse_aux(path, incdir):
             other += 1
             continue
         out.append({'name': n.group(1), 'file': os.path.basename(f), 'line': int(m.group(2)),
-                    'defined': m.group(4) == 'F', 'storage': storage})
+                    'defined': m.group(4) == 'F', 'storage': storage, 'decl': decl,
+                    'pnames': [x.strip() for x in kr.group(1).split(',')] if kr and kr.group(1).strip() else []})
     return out, other
 
+
+
+def param_types(rec):
+    """parameter type strings of a gcc -aux-info declaration record (names of a definition removed); None if not parseable"""
+    decl = rec.get('decl') or ''
+    i = decl.find(rec['name'] + ' (')
+    if i < 0:
+        return None
+    j = i + len(rec['name']) + 2
+    depth, k = 1, j
+    while k < len(decl) and depth:
+        depth += decl[k] == '('
+        depth -= decl[k] == ')'
+        k += 1
+    if depth:
+        return None
+    inner = decl[j:k - 1].strip()
+    if inner in ('', 'void'):
+        return []
+    parts, depth, cur = [], 0, ''
+    for ch in inner:
+        if ch == ',' and depth == 0:
+            parts.append(cur.strip()); cur = ''
+            continue
+        depth += ch == '('
+        depth -= ch == ')'
+        cur += ch
+    parts.append(cur.strip())
+    names = rec.get('pnames') or []
+    out = []
+    for idx, t in enumerate(parts):
+        if t == '...':
+            return None
+        if idx < len(names) and names[idx]:
+            # `T *const x` or, for pointers to functions, `F (*const x)`: the name is the last identifier, closing parentheses may follow
+            t = re.sub(r'\b%s\b\s*(\)*)$' % re.escape(names[idx]), r'\1', t).strip()
+        t = re.sub(r'\b(const|volatile)(\s+\1\b)+', r'\1', t)
+        out.append(t)
+    return out
+
+
+def shape_arg(t, literal):
+    """an argument expression of type t for a call that is compiled but never executed; literal: pointer arguments are
+    compound literals whose initialiser list contains a comma at top level"""
+    if '(*' in t or re.search(r'_func_t\b', t):
+        return '(%s)0' % t
+    if '*' in t:
+        return '(%s)(void *)&(struct c18_two){ 1, 2 }' % t if literal else '(%s)(void *)&c18_obj' % t
+    return '(%s)0' % t
 
 # --------------------------------------------------------------------------- source generation
 
@@ -621,6 +672,59 @@ class Pipeline:
         self.count('declared-inline-functions', len(self.inline_def))
         self.count('declared-external-definitions-in-headers', len(self.extern_def))
 
+    def stage_callshapes(self):
+        """every declared function is CALLED (in code that is compiled but never executed) with pointer arguments that are
+        compound literals `&(struct c18_two){ 1, 2 }`: a top-level comma inside an argument is ordinary C99, but splits the
+        argument list of a function-like macro that shadows the function.  A control TU makes the same calls with plain
+        object addresses; only "control compiles, literal variant does not" is a violation."""
+        inc = os.path.join(self.scratch, 'include')
+        d = os.path.join(self.broot, 'shapes')
+        os.makedirs(d, exist_ok=True)
+
+        def gen(h, literal):
+            L = ['/* verif C18: call shapes, %s */' % ('compound-literal arguments' if literal else 'control'),
+                 '#include "cstl/%s"' % h, '#include <stddef.h>',
+                 'struct c18_two { long a, b; };', 'static struct c18_two c18_obj;', 'static volatile int c18_never;',
+                 'void c18_shapes_%s(void);' % hname(h), 'void c18_shapes_%s(void)' % hname(h), '{', '    (void)c18_obj;']
+            n = 0
+            for name in self.own.get(h) or []:
+                pt = param_types(self.funcs[name])
+                if pt is None:
+                    self.count('call-shapes.unparsed-declarations')
+                    continue
+                L.append('    if (c18_never) { (void)%s(%s); }' % (name, ', '.join(shape_arg(t, literal) for t in pt)))
+                n += 1
+            L.append('}')
+            return '\n'.join(L) + '\n', n
+
+        def one(h):
+            res = []
+            for literal in (False, True):
+                text, n = gen(h, literal)
+                src = os.path.join(d, '%s_%s.c' % (hname(h), 'lit' if literal else 'ctl'))
+                open(src, 'w').write(text)
+                cmd = ['gcc'] + CLIENT_CFLAGS + [self.opts[-1], '-I' + inc, '-c', src, '-o', src[:-2] + '.o']
+                rc, out = sh(cmd)
+                res.append((cmd, rc, out, n))
+            return h, res
+        with ThreadPoolExecutor(max_workers=WORKERS) as ex:
+            results = list(ex.map(one, [h for h in self.headers if self.own.get(h)]))
+        for h, ((ccmd, crc, cout, n), (lcmd, lrc, lout, _)) in results:
+            self.vlog(' '.join(lcmd), lrc, lout)
+            self.count('call-shapes.functions-called', n)
+            if crc != 0:
+                self.count('call-shapes.control-does-not-compile')
+                if not self.is_infra(crc, cout):
+                    self.vlog(' '.join(ccmd), crc, cout)
+                continue
+            self.count('call-shapes.headers')
+            if lrc != 0 and not self.is_infra(lrc, lout):
+                self.violate('compile.error.call-shape.%s' % hname(h),
+                             'calls of the functions declared by cstl/%s whose pointer arguments are compound literals with a comma in their '
+                             'initialiser list do not compile, the same calls with plain object addresses do (%s)' % (h, self.first_error(lout)),
+                             -1, ' '.join(lcmd), lout,
+                             {'client': 'shapes', 'kind': 'call-shape', 'headers': [h], 'desc': 'call shapes: ' + h}, cls='compile', hs=(h,))
+
     def note_warnings(self, out):
         for m in re.finditer(r'warning: .*?(?:\[(-W[^\]]+)\])?$', out or '', re.M):
             self.count('warnings')
@@ -975,6 +1079,49 @@ class Pipeline:
                 if good:
                     resolved += 1
             self.count('extern-functions-resolved', resolved)
+            # ---- the library's global symbols outside its own name space
+            # A client may use any identifier that is neither reserved nor declared by the headers it includes.  Every global
+            # symbol libcstl.a defines outside (__)cstl_* is such an identifier: a client that defines a function of that name
+            # and uses anything from the same archive member must still link (and run) -- otherwise "duplicate symbols".
+            foreign = sorted(n for n in lib_defs if not re.match(r'(__)?cstl_', n) and not SAN_SYM.match(n)
+                             and any(t in 'TDBRSGC' for _, t in lib_defs[n]))
+            self.count('library-globals-outside-cstl-namespace', len(foreign))
+            by_member = {}
+            for n, lst in lib_defs.items():
+                for member, t in lst:
+                    if t == 'T' and re.match(r'cstl_', n):
+                        by_member.setdefault(member, []).append(n)
+            nsd = os.path.join(self.broot, 'namespace')
+            os.makedirs(nsd, exist_ok=True)
+            for n in foreign:
+                member = lib_defs[n][0][0]
+                anchor = sorted(by_member.get(member) or [])
+                src = os.path.join(nsd, 'ns_%s.c' % re.sub(r'\W', '_', n))
+                exe = src[:-2]
+                with open(src, 'w') as f:
+                    f.write('/* verif C18: a client with an identifier of its own that the library also defines globally */\n')
+                    f.write('int %s(void);\nint %s(void)\n{\n    return 41;\n}\n' % (n, n))
+                    if anchor:
+                        f.write('extern void %s(void);\nstatic void (*volatile c18_anchor)(void) = %s;\n' % (anchor[0], anchor[0]))
+                    f.write('int main(void)\n{\n    return (%s() == 41%s) ? 0 : 1;\n}\n' % (n, ' && c18_anchor != 0' if anchor else ''))
+                cmd = ['gcc', '-std=c99', '-O1', src, '-o', exe, a, '-lm']
+                rc, out = sh(cmd)
+                self.vlog(' '.join(cmd), rc, out)
+                self.count('namespace-clients-linked')
+                if rc != 0 and not self.is_infra(rc, out):
+                    self.violate('link.error.namespace.%s' % n,
+                                 'libcstl.a (member %s) defines the global symbol %s, which is outside the library\'s cstl_ name space: '
+                                 'a client that has a function of that name and uses %s no longer links (%s)'
+                                 % (member, n, anchor[0] if anchor else 'the member', self.first_error(out)),
+                                 -1, ' '.join(cmd), out,
+                                 {'client': 'namespace', 'check': 'client-identifier-collides', 'symbol': n, 'desc': 'nm libcstl.a'},
+                                 cls='link')
+                elif rc == 0:
+                    rc2, out2r = sh([exe])
+                    if rc2 != 0:
+                        self.violate('run.error.namespace.%s' % n, 'the client defining its own %s linked against libcstl.a but exited with %s'
+                                     % (n, self.rcstr(rc2)), -1, exe, out2r,
+                                     {'client': 'namespace', 'check': 'client-identifier-collides', 'symbol': n, 'desc': 'nm libcstl.a'}, cls='run')
         # client objects
         objs = list(self.bare_objs)
         for o in self.objects.values():
@@ -1047,6 +1194,7 @@ class Pipeline:
             os.makedirs(self.broot, exist_ok=True)
             self.stage_bare()
             self.stage_dialects()
+            self.stage_callshapes()
             self.enumerate()
             self.ncases = len(self.configs)
             self.stage_compile()
@@ -1098,7 +1246,8 @@ class Pipeline:
             'counters': dict(sorted(self.counters.items())),
             'distinct': {'client-configurations': len(self.done_distinct), 'header-tuples': len(self.done_tuples)},
             'distinct_nontrivial': len([d for d in self.done_distinct if len(d[1]) >= 1]),
-            'required_missing': [], 'samples': self.samples, 'violations': self.violations,
+            'required_missing': [k for k in ('call-shapes.functions-called', 'call-shapes.headers') if not self.counters.get(k)] if not self.infra else [],
+            'samples': self.samples, 'violations': self.violations,
         }
 
 
